@@ -1,4 +1,5 @@
 import SspModel.Lemmas.Eject
+import SspModel.Lemmas.Bridge.Eject
 /-!
 # C07 — dynamical BH retention removes exactly the requested mass, heaviest first
 
@@ -31,6 +32,16 @@ theorem lightestMass_real (centre0 : ℝ) (bins : List (ℝ × ℝ)) :
   simp only [Scalar.lt, real_zero, decide_eq_true_eq]
 
 structure Statement : Prop where
+  /-- one step of the model's loop, and its entry condition and initial budget, are the source's own expressions -/
+  source_step : ∀ (m n mej : ℝ) (rest : List (ℝ × ℝ)), dynEjectLoop ((m, n) :: rest) mej =
+      if Generated.eject_whole m mej then
+        (match dynEjectLoop rest (Generated.eject_budget m mej) with
+         | .ok (r, d) => .ok ((Generated.eject_zeroM m, Generated.eject_zeroN n) :: r, d)
+         | .error e => .error e)
+      else .ok ((Generated.eject_partM m n mej, Generated.eject_partN m n mej) :: rest, !(Scalar.beq m 0))
+  source_entry : ∀ (bins : List (ℝ × ℝ)) (mej : ℝ),
+    dynEjectRev bins mej = if Generated.eject_cond mej then dynEjectLoop bins mej else .ok (bins, true)
+  source_budget : ∀ Mtot ret : ℝ, Generated.eject_initial Mtot ret = Mtot * (1 - ret)
   /-- whenever the routine returns, exactly `mej` has been removed (nothing when `mej ≤ 0`) -/
   mass : ∀ (l r : List (ℝ × ℝ)) (mej : ℝ) (d : Bool), dynEjectRev l mej = .ok (r, d) →
     sumFst r = sumFst l - max mej 0
@@ -204,6 +215,9 @@ theorem row_err (kicks : Option (List (ℝ × ℝ) → List (ℝ × ℝ) × ℝ)
 
 /-- **C07** over exact reals (for the loop as repaired by the `fix:` commit: `while M_eject > 0`) -/
 theorem C07_holds : Statement where
+  source_step := Bridge.gen_dynEjectLoop_cons
+  source_entry := Bridge.gen_dynEjectRev
+  source_budget := Bridge.gen_eject_initial
   mass := mass
   shape := shape
   nothing := nothing
